@@ -891,7 +891,7 @@ func runC07(c *Ctx) {
 	c.Extra["corpus_files"] = names
 
 	// ---- stream journal: grammar-based, mostly valid, many layouts
-	nJ := c.N(12000, 400000)
+	nJ := c.N(12000, 330000)
 	for i := 0; i < nJ; i++ {
 		if !c.Want("journal", i) {
 			continue
@@ -901,7 +901,7 @@ func runC07(c *Ctx) {
 	}
 
 	// ---- stream mutated: byte-level mutations and truncations of valid journals
-	nM := c.N(12000, 500000)
+	nM := c.N(12000, 400000)
 	for i := 0; i < nM; i++ {
 		if !c.Want("mutated", i) {
 			continue
@@ -912,7 +912,7 @@ func runC07(c *Ctx) {
 	}
 
 	// ---- stream prefixes: every prefix of some valid journals (truncated directives)
-	nP := c.N(40, 1500)
+	nP := c.N(40, 1200)
 	pi := 0
 	for i := 0; i < nP; i++ {
 		text, _ := synJournal(c.Rng("prefixes", i))
@@ -925,7 +925,7 @@ func runC07(c *Ctx) {
 	}
 
 	// ---- stream raw: random bytes incl. invalid UTF-8, lone CR, NUL, U+FFFD
-	nR := c.N(8000, 400000)
+	nR := c.N(8000, 330000)
 	for i := 0; i < nR; i++ {
 		if !c.Want("raw", i) {
 			continue
